@@ -754,6 +754,14 @@ def run(prog, rep, tier):
     check_list_args_copied(prog, rep)
     if check_param_icall(prog, rep, inplace) < 2:
         raise AnalysisError('OWN-param-icall: the confirmed instances were not found')
+    rep.rule('OWN-param-mps-inplace', 'state-changing MPS methods (closure of stores into _B/_S/form/'
+             'norm) are only called on copies of operand states')
+    if check_param_mps_inplace(prog, rep) < 2:
+        raise AnalysisError('OWN-param-mps-inplace: from_product_mps_covering not recognised')
+    rep.rule('OWN-getter-copy', 'get_theta returns a get_B result only with copy=True (bound '
+             'against the signature of get_B)')
+    if check_getter_copy(prog, rep) < 1:
+        raise AnalysisError('OWN-getter-copy: the n == 1 return of get_theta not found')
     rep.rule('OWN-benign-rebind', 'the storage re-ordering methods the analysis treats as harmless '
              '(isort_qdata, _imake_contiguous) re-bind _qdata / _data and never permute them in place')
     if check_benign_rebind(prog, rep) < 2:
@@ -872,4 +880,116 @@ def check_benign_rebind(prog, rep):
                           '`_qdata` but owns another `_data` list (result of -a, complex_conj, a '
                           'shallow copy after its data were re-bound) keeps its blocks in the old '
                           'order against permuted index rows' % key_text(st)[:60], st.lineno)
+    return n
+
+
+# ------------------------------------------------------------------ OWN-getter-copy
+def check_getter_copy(prog, rep):
+    """OWN-getter-copy: MPS.get_B(i, form, copy=False, ..) hands out the STORED tensor (or a
+    relabelled shallow copy sharing its blocks) whenever no rescaling is needed. get_theta() is the
+    accessor algorithms modify in place (`theta *= ..`, `theta.iscale_prefactor(..)`); the tensor it
+    returns straight from get_B therefore binds `copy=True` (positionally or by keyword, resolved
+    against the signature of get_B). Contractions (`npc.tensordot`) always produce fresh blocks."""
+    from ..core import bound_args
+    m = prog.module('tenpy/networks/mps.py')
+    ct = prog.classtable()
+    ci = ct.get('MPS')
+    getB = ci.methods['get_B']
+    f = ci.methods['get_theta']
+    n = 0
+    for r in ast.walk(f):
+        if not (isinstance(r, ast.Return) and isinstance(r.value, ast.Call) and
+                unparse(r.value.func) == 'self.get_B'):
+            continue
+        n += 1
+        ba = bound_args(r.value, getB)
+        cp = ba.get('copy')
+        ok = isinstance(cp, ast.Constant) and cp.value is True
+        rep.instance('OWN-getter-copy', {'function': 'MPS.get_theta', 'return': key_text(r)[:70],
+                                         'copy': unparse(cp) if cp is not None else 'default False'})
+        if not ok:
+            rep.violation('OWN-getter-copy', m, 'MPS.get_theta', 'returns-stored:get_B',
+                          '`%s` hands the result of get_B to the caller with copy=%s: when the '
+                          'stored form already is the requested one the caller receives the '
+                          'blocks of psi._B[i] and an in-place operation on theta changes the '
+                          'state' % (key_text(r)[:60], unparse(cp) if cp is not None else
+                                     'False (default)'), r.lineno)
+    return n
+
+
+# ------------------------------------------------------------------ OWN-param-mps-inplace
+def _mps_inplace_methods(ct):
+    """names of MPS methods that change the state they are called on (transitive closure)"""
+    ci = ct.get('MPS')
+    direct = set()
+    for name, f in ci.methods.items():
+        for x in ast.walk(f):
+            if isinstance(x, (ast.Assign, ast.AugAssign)):
+                tg = x.targets if isinstance(x, ast.Assign) else [x.target]
+                for t in tg:
+                    b = t
+                    while isinstance(b, ast.Subscript):
+                        b = b.value
+                    if is_self_attr(b) and b.attr in ('_B', '_S', 'form', 'norm', 'sites',
+                                                      'segment_boundaries'):
+                        direct.add(name)
+    direct -= {'__init__', 'copy', '__setstate__', 'from_hdf5'}
+    grown = True
+    while grown:
+        grown = False
+        for name, f in ci.methods.items():
+            if name in direct or name in ('__init__', 'copy'):
+                continue
+            if any(isinstance(c, ast.Call) and isinstance(c.func, ast.Attribute) and
+                   unparse(c.func.value) == 'self' and c.func.attr in direct
+                   for c in ast.walk(f)):
+                direct.add(name)
+                grown = True
+    return direct
+
+
+def check_param_mps_inplace(prog, rep):
+    """OWN-param-mps-inplace: functions of mps.py that receive other states (a parameter, or the
+    elements of a parameter they loop over) do not call state-changing MPS methods on them unless an
+    unconditional re-binding to a copy (`x = x.copy()`) precedes the call in the same block. The set
+    of state-changing methods is the transitive closure of MPS methods that store into
+    _B / _S / form / norm."""
+    ct = prog.classtable()
+    inplace = _mps_inplace_methods(ct)
+    if not {'convert_form', 'permute_sites', 'canonical_form'} <= inplace:
+        raise AnalysisError('in-place closure of MPS lost convert_form / permute_sites')
+    m = prog.module('tenpy/networks/mps.py')
+    n = 0
+    for q, f in m.functions.items():
+        ps = set(params(f)) - {'self', 'cls'}
+        if not ps:
+            continue
+        for lp in ast.walk(f):
+            if not isinstance(lp, ast.For):
+                continue
+            src = {x.id for x in ast.walk(lp.iter) if isinstance(x, ast.Name)}
+            if not (src & ps):
+                continue
+            loopvars = {x.id for x in ast.walk(lp.target) if isinstance(x, ast.Name)}
+            for c in ast.walk(lp):
+                if not (isinstance(c, ast.Call) and isinstance(c.func, ast.Attribute) and
+                        isinstance(c.func.value, ast.Name) and c.func.value.id in loopvars and
+                        c.func.attr in inplace):
+                    continue
+                v = c.func.value.id
+                n += 1
+                fresh = any(isinstance(st, ast.Assign) and any(
+                    isinstance(t, ast.Name) and t.id == v for t in st.targets) and isinstance(
+                        st.value, ast.Call) and isinstance(st.value.func, ast.Attribute) and
+                            st.value.func.attr == 'copy' and st.lineno < c.lineno
+                            for st in lp.body)            # top level of the loop body only
+                rep.instance('OWN-param-mps-inplace', {'function': q, 'call': unparse(c)[:50],
+                                                       'on_copy': fresh})
+                if not fresh:
+                    rep.violation('OWN-param-mps-inplace', m, q, 'inplace-on-operand:%s.%s'
+                                  % (v, c.func.attr),
+                                  '`%s` changes `%s`, an element of the parameter `%s`, in place; '
+                                  'no unconditional `%s = %s.copy()` precedes it in the loop body: '
+                                  'the caller\'s state is modified' %
+                                  (unparse(c)[:50], v, sorted(src & ps)[0], v, v), c.lineno)
     return n
